@@ -57,6 +57,8 @@ pub struct Case {
     pub order: Vec<usize>,
     pub f: TT,
     pub k: usize,
+    /// the last `appended` variables of `order` were added with new_var after construction
+    pub appended: usize,
 }
 
 /// check one (function, order, depth) case in the given builder; returns a violation text
@@ -127,22 +129,33 @@ fn make_params(nv: usize, tier: Tier) -> Vec<(Vec<(u32, u32)>, WmcParams<RealSem
 }
 
 fn case_json(c: &Case) -> Value {
-    json!({"kind": "smooth", "n": c.n, "extra_vars": c.extra, "order": c.order, "function": format!("{:#x}", c.f), "depth": c.k})
+    json!({"kind": "smooth", "n": c.n, "extra_vars": c.extra, "order": c.order, "function": format!("{:#x}", c.f), "depth": c.k, "appended": c.appended})
 }
 
-fn run_config(n: usize, extra: usize, order: &[usize], table_cap: usize, ctx: &Ctx, fstep: usize) -> Report {
+/// add `appended` variables to a live manager with new_var
+fn grow<'a>(b: &'a AllBuilder<'a>, appended: usize) {
+    for _ in 0..appended {
+        b.new_var(true);
+    }
+}
+
+fn run_config(n: usize, extra: usize, order: &[usize], table_cap: usize, ctx: &Ctx, fstep: usize, appended: usize) -> Report {
     let mut rep = Report::default();
     rep.exhaustive = true;
     let nv = n + extra;
     let params = make_params(nv, ctx.tier);
     let total = 1u64 << (1u64 << n);
-    let b = small_builder(order, table_cap);
+    let b = small_builder(&order[..nv - appended], table_cap);
+    if let Err(e) = guarded(|| grow(&b, appended)) {
+        rep.violation("smooth:panic", format!("adding {} variables to a {}-variable manager panicked: {}", appended, nv - appended, e), json!({"kind": "smooth", "n": n, "extra_vars": extra, "order": order, "function": "0x0", "depth": 0, "appended": appended}));
+        return rep;
+    }
     let mut skipped_mid = 0u64;
     let levels = levels_of(order);
     let mut f = 0u64;
     while f < total {
         for k in 0..=nv {
-            let c = Case { n, extra, order: order.to_vec(), f, k };
+            let c = Case { n, extra, order: order.to_vec(), f, k, appended };
             let mut ev = 0;
             let v = check_case(&b, &c, &params, &mut ev);
             rep.transitions += 1;
@@ -179,25 +192,34 @@ pub fn run(ctx: &Ctx) -> Report {
     let mut rep = Report::new(
         "every Boolean function of n variables (n <= 3 quick, 4 thorough; plus one unused builder variable) x every variable order x every smoothing depth k = 0..#vars: function preserved, every path tests levels 0..k-1 exactly once in order, and for k = #vars the count under integer (low, high) weights from {(1,1),(1,2),(2,3),(3,5),(5,2)} equals the brute-force sum; distinct = (function, order, depth), non-trivial = function not constant",
     );
-    let mut items: Vec<(usize, usize, Vec<usize>, usize)> = Vec::new();
+    let mut items: Vec<(usize, usize, Vec<usize>, usize, usize)> = Vec::new();
     let ns: Vec<(usize, usize)> = match ctx.tier {
         Tier::Quick => vec![(1, 0), (2, 0), (2, 1), (3, 0), (3, 1)],
         Tier::Thorough => vec![(1, 0), (2, 0), (2, 1), (3, 0), (3, 1), (4, 0), (4, 1)],
     };
     for (n, extra) in ns {
         for o in permutations(n + extra) {
-            items.push((n, extra, o.clone(), 2));
+            items.push((n, extra, o.clone(), 2, 0));
         }
         // one configuration at the library's default table capacity
-        items.push((n, extra, (0..n + extra).rev().collect(), 0));
+        items.push((n, extra, (0..n + extra).rev().collect(), 0, 0));
+        // managers grown by new_var: every order of the initial variables, 1..#vars appended
+        let nv = n + extra;
+        for a in 1..=nv {
+            for o in permutations(nv - a) {
+                let mut full = o.clone();
+                full.extend(nv - a..nv);
+                items.push((n, extra, full, 2, a));
+            }
+        }
     }
-    let r = par_run(ctx, &items, |_, (n, extra, o, cap)| run_config(*n, *extra, o, *cap, ctx, 1));
+    let r = par_run(ctx, &items, |_, (n, extra, o, cap, a)| run_config(*n, *extra, o, *cap, ctx, 1, *a));
     let mid = r.extra.get("functions_skipping_a_non_bottom_level").and_then(|v| v.as_u64()).unwrap_or(0);
     rep.merge(r);
     rep.floor("functions whose diagram skips a non-bottom level", mid, 1);
     rep.distinct_nontrivial = rep.transitions;
     rep.bound("functions", json!(match ctx.tier { Tier::Quick => "all of F(1..3), with and without one unused variable", Tier::Thorough => "all of F(1..4), with and without one unused variable" }));
-    rep.bound("orders", json!("all permutations"));
+    rep.bound("orders", json!("all permutations; plus managers created over the first m variables (all permutations) and grown to #vars by new_var, m = 0..#vars-1"));
     rep.bound("weights", json!("full product of the 5-pair alphabet for <= 3 variables (<=2 in quick), a 13-element rule-defined slice above"));
     rep.sample(json!({"function": "0xf0 (= x2)", "order": [0, 1, 2], "depth": 3, "expected_paths": "x0,x1,x2 on every path"}));
     rep.assumptions.push("integer weights keep f64 arithmetic exact; the counts are compared with ==".into());
@@ -212,8 +234,11 @@ pub fn replay(_ctx: &Ctx, case: &Value) -> Report {
     let f = u64::from_str_radix(case["function"].as_str().unwrap_or("0x0").trim_start_matches("0x"), 16).unwrap_or(0);
     let k = case["depth"].as_u64().unwrap_or(0) as usize;
     let params = make_params(n + extra, Tier::Thorough);
-    let b = small_builder(&order, 2);
-    let c = Case { n, extra, order: order.clone(), f, k };
+    let appended = case["appended"].as_u64().unwrap_or(0) as usize;
+    let appended = appended.min(order.len());
+    let b = small_builder(&order[..order.len() - appended], 2);
+    grow(&b, appended);
+    let c = Case { n, extra, order: order.clone(), f, k, appended };
     let mut ev = 0;
     if let Some((key, what)) = check_case(&b, &c, &params, &mut ev) {
         rep.violation(format!("smooth:{}", key), what, case.clone());
